@@ -435,7 +435,24 @@ func jsonCase(q req, rp reply) string {
 
 // ---------- generators ----------
 
-var hostile = []uint64{1 << 16, 1 << 31, 1 << 32, 1 << 40, 1 << 63, 1<<64 - 1}
+// hostile counts / lengths: powers of two, and values whose product with a plausible per-element size wraps to
+// something small in 64 bits (c = k^-1 mod 2^64 gives c*k = 1; neighbours give small multiples): a guard of the
+// form "count * size <= bytes left" passes for them
+var hostile = func() []uint64 {
+	hs := []uint64{1 << 16, 1 << 31, 1 << 32, 1 << 40, 1 << 63, 1<<64 - 1}
+	for _, k := range []uint64{9, 41, 33, 37, 45, 149, 8, 40, 36, 32} {
+		if k%2 == 1 {
+			inv := k // Newton iteration for the inverse modulo 2^64
+			for i := 0; i < 6; i++ {
+				inv *= 2 - k*inv
+			}
+			hs = append(hs, inv, inv*2, inv*3)
+		} else {
+			hs = append(hs, (1<<63)/(k/2)*1+1, 1<<61, 1<<60+1) // k*c wraps to a small value for even sizes too
+		}
+	}
+	return hs
+}()
 
 func vi9(v uint64) []byte {
 	b := make([]byte, 9)
@@ -685,6 +702,6 @@ func main() {
 	}
 
 	runReqs()
-	c.Stats.Rule = "binary: regression corpus; random bytes (bare and behind a plausible header) into every entry point; every truncation offset and every single-bit flip of valid std+extended transactions, lists, inputs, outputs; a 1-in/1-out template with each count/length varint replaced by {2^16,2^31,2^32,2^40,2^63,2^64-1} (9-byte and shortest encodings; rest of the template / nothing / 40 filler bytes following) and by every truncated varint (ff+0..7, fe+0..3, fd+0..1 bytes); script lengths around the 4096-byte chunking fully/partly supplied. Each input is decoded through bytes.Reader, iotest.OneByteReader, a 1..7-byte chunk reader, DataErrReader and HalfReader (results must agree), plus NewTxFromStream/NewTxFromBytes for transactions. JSON: documents for *bt.Tx, tx.NodeJSON(), txs.NodeJSON(), output.NodeJSON(), *bt.UTXO, utxo.NodeJSON() with each optional object missing/null/mistyped, bad/odd hex, null list elements, hostile tx hex. distinct = distinct (entry point, input); non-trivial = binary inputs on which the decoder consumed at least one byte, JSON documents that encoding/json passes on to the library code"
+	c.Stats.Rule = "binary: regression corpus; random bytes (bare and behind a plausible header) into every entry point; every truncation offset and every single-bit flip of valid std+extended transactions, lists, inputs, outputs; a 1-in/1-out template with each count/length varint replaced by {2^16,2^31,2^32,2^40,2^63,2^64-1, and counts whose product with an element size of 9/33/37/41/45/149 (or 8/32/36/40) bytes wraps to a small number} (9-byte and shortest encodings; rest of the template / nothing / 40 filler bytes following) and by every truncated varint (ff+0..7, fe+0..3, fd+0..1 bytes); script lengths around the 4096-byte chunking fully/partly supplied. Each input is decoded through bytes.Reader, iotest.OneByteReader, a 1..7-byte chunk reader, DataErrReader and HalfReader (results must agree), plus NewTxFromStream/NewTxFromBytes for transactions. JSON: documents for *bt.Tx, tx.NodeJSON(), txs.NodeJSON(), output.NodeJSON(), *bt.UTXO, utxo.NodeJSON() with each optional object missing/null/mistyped, bad/odd hex, one- and two-character hex strings, 0x prefixes, null list elements, hostile tx hex. distinct = distinct (entry point, input); non-trivial = binary inputs on which the decoder consumed at least one byte, JSON documents that encoding/json passes on to the library code"
 	c.Finish()
 }
